@@ -61,6 +61,8 @@ func rulesC11(c *Ctx, r *Report) {
 	rulesNoCsv(c, r, "formats/bed", []string{"Reader"}, "(*BED).Write")
 	rulesTagTable(c, r)
 	rulesNewickNames(c, r)
+	rulesNewickWriter(c, r)
+	rulesScanAlias(c, r, true)
 }
 
 // rulesPanics (PANIC).
